@@ -46,7 +46,7 @@ _AMB_NULL = None
 class ambient:
     """with H.ambient(seed, res): ...   (never around scheduler explorations: trace logging changes the line-level points)"""
 
-    ALL = ("trace", "multithread", "tls", "dispatcher", "high_fd")
+    ALL = ("trace", "multithread", "tls", "dispatcher", "high_fd", "warn_error")
 
     def __init__(self, seed, res=None, dims=ALL):
         import random
@@ -59,6 +59,8 @@ class ambient:
         AMB.dims = self.dims
         AMB.counts = {}
         AMB.last = None
+        import warnings
+        AMB.saved_filters = warnings.filters[:]
         return self
 
     def __exit__(self, *a):
@@ -66,6 +68,9 @@ class ambient:
         AMB.last = None
         net.SimSocket.fd_base = 10
         net.SimSocket.recv_type = bytes
+        import warnings
+        warnings.filters[:] = AMB.saved_filters
+        warnings._filters_mutated()
         try:
             ws().enableTrace(False)
         except Exception:  # noqa
@@ -86,6 +91,8 @@ def _draw_ambient():
         "tls": ("tls" in AMB.dims and r.random() < 0.25),
         "dispatcher": ("dispatcher" in AMB.dims and r.random() < 0.25),
         "high_fd": ("high_fd" in AMB.dims and r.random() < 0.15),
+        # the application runs with warnings turned into errors (python -W error, a test runner's filterwarnings=error)
+        "warn_error": ("warn_error" in AMB.dims and r.random() < 0.2),
     }
     AMB.last = a
     for k, v in a.items():
@@ -114,6 +121,12 @@ def _apply_ambient(W, ws_kwargs, manage_trace=True):
     if a["dispatcher"] and "dispatcher" not in kw:
         kw["dispatcher"] = W._dispatcher.DispatcherBase(type("App", (), {"keep_running": True})(), 5)
     net.SimSocket.fd_base = 1100 if a["high_fd"] else 10
+    if "warn_error" in AMB.dims:
+        import warnings
+        warnings.filters[:] = AMB.saved_filters
+        warnings._filters_mutated()
+        if a["warn_error"]:
+            warnings.simplefilter("error")
     return kw, bool(a["tls"])
 
 
